@@ -75,6 +75,11 @@ Theorem C06_expression_value : forall debug facts describe (w0 : blanks) (e : Pa
     agrees r (denote (sem_expr e)).
 Proof. exact expression_value. Qed.
 
+(* The priorities, operator node kinds and the unit-operand flag of the model's `op()` are the ones the translator reads from
+   grammar.rs on every run (gen/Tables.v). *)
+Theorem C06_priorities_are_translated : forall k : kind, op_row k = table_row k.
+Proof. exact priorities_are_translated. Qed.
+
 (* non-vacuity of the unbounded statements: " 1 - (2+3)*4" with its blanks *)
 Example C06_expression_example :
   let e := Chain (Num [49%N]) (TCons [[32%N]] ADash [45%N] [[32%N]]
